@@ -20,7 +20,7 @@ sys.path.insert(0, os.path.join(os.path.dirname(os.path.dirname(os.path.abspath(
 from vlib import OkV, Internal, coq_str, coq_z, REPO  # noqa: E402
 
 LEVEL = 'proof'
-RULE = ('modules from tools/gen/irgen.py (seeded; all features incl. shuffled block order, volatile, initialised '
+RULE = ('modules from tools/gen/irgen.py (seeded; all features incl. locals/parameters shadowing module-level names, calls to later functions, shuffled block order, volatile, initialised '
         'globals, copyblob, undefined, float bit patterns, big constants) plus hand-made witnesses; per module one '
         'writer case (real dict vs model JSON) and one round-trip case (real from_json(to_json) vs model); '
         'non-trivial = module with at least one function whose real round trip terminates normally')
@@ -149,11 +149,13 @@ def classify(d):
     if 'NotImplementedError' in d:
         return 'instruction-kind-not-serialisable'
     if 'type mismatch ptr' in d:
-        return 'forward-operand-type'
+        return 'operand-type-mismatch-in-reader'
     if 'KeyError' in d:
         return 'forward-double-use-replace_use'
     if "'unres'" in d or 'unres' in d:
-        return 'forward-call-argument-not-replaced'
+        return 'reference-left-unresolved'
+    if "'loc' vs" in d or "'param' vs" in d or "'glob' vs" in d:
+        return 'operand-bound-to-another-value'
     if '<store>' in d or '<load>' in d:
         return 'volatile-lost'
     if 'bytes' in d and 'None' in d:
@@ -293,6 +295,8 @@ def run(ctx):
     mods = [wit[k] for k in sorted(wit)]
     for k in range(n):
         feats = None if k % 4 else tuple(f for f in irgen.ALL_FEATURES if f != 'shuffle')
+        if k % 4 in (1, 3):
+            feats = irgen.ALL_FEATURES_X     # + locals/parameters shadowing module-level names, calls to later functions
         mods.append(irgen.gen_module(ctx.rng, size=1 + k % 4, features=feats, name='m%d' % k))
     for m in mods:
         term = irimport.module_to_coq(m)
@@ -350,7 +354,7 @@ def search(ctx, deep=False):
     rng = random.Random(ctx.seed * 7919 + 16)
     classes = {}
     for k in range(n):
-        m = irgen.gen_module(rng, size=1 + k % 4, features=None, name='s%d' % k)
+        m = irgen.gen_module(rng, size=1 + k % 4, features=irgen.ALL_FEATURES_X if k % 2 else None, name='s%d' % k)
         d = oracle(irimport, irutils, m)
         if d is None:
             continue
